@@ -30,6 +30,7 @@ def chain_texts(f, node) -> list[str]:
 def run(chk: Check) -> None:
     ix = get_index()
     run_codes_and_unused(chk, ix)
+    run_parser_ignores(chk, ix)
     aei = ix.func("mypy.errors.Errors.add_error_info")
     g = CFG(aei.node)
 
@@ -408,3 +409,43 @@ def run_codes_and_unused(chk: Check, ix) -> None:
         r7.ok("ignore-without-code: only bare comments; not in addition to an unused-ignore warning", gw.loc())
     else:
         r7.violation("ignore-without-code: only bare comments; not in addition to an unused-ignore warning", gw.loc(), "the two skip conditions of generate_ignore_without_code_errors changed")
+
+
+def run_parser_ignores(chk: Check, ix) -> None:
+    """R13.8: diagnostics reported while parsing are subject to the file's ignore comments and disabled codes."""
+    r8 = chk.rule("R13.8", "add_error_info applies ignore comments and disabled codes only to files registered in Errors.ignored_lines, and a file is registered by State.setup_errors only after parsing; so each front end registers the ignore map itself (set_file_ignored_lines) on every path before it reports a parse-time diagnostic", floor=2)
+    sites = [("mypy.fastparse.ASTConverter.fail", "report"), ("mypy.parse.load_from_raw", "report_parse_error")]
+    for q, reporter in sites:
+        f = ix.func(q)
+        g = CFG(f.node)
+        reps = [n for n in g.nodes if any(call_name(c) == reporter for c in n.calls())]
+        regs = [n for n in g.nodes if any(call_name(c) == "set_file_ignored_lines" for c in n.calls())]
+        if not reps:
+            raise AnalysisError(f"{q}: no call of {reporter} found")
+        key = f"{q}: set_file_ignored_lines before every {reporter}(...)"
+        ok = bool(regs) and all(g.must_pass(g.entry, [r_], regs, labels_excluded=("exc",)) for r_ in reps)
+        if regs and not ok:
+            # `if xs: register(...)` followed by `for x in xs: report(x)`: the loop body runs only when xs is non-empty
+            par8 = f.module.parents()
+            def loop_iter(stmt):
+                p_ = par8.get(stmt)
+                while p_ is not None and p_ is not f.node:
+                    if isinstance(p_, ast.For):
+                        return norm(p_.iter)
+                    p_ = par8.get(p_)
+                return None
+            from ..cfg import branch_conditions
+            gpos, gneg = branch_conditions(par8, f.node, regs[0].stmt)
+            its = {loop_iter(r_.stmt) for r_ in reps}
+            if len(its) == 1 and None not in its and [norm(t) for t in gpos] == [next(iter(its))] and not gneg:
+                heads = [n for n in g.nodes if n.kind == "test" and norm(n.exprs[0]) == next(iter(its))]
+                ok = bool(heads) and all(g.must_pass(g.entry, [r_], heads, labels_excluded=("exc",)) for r_ in reps)
+        if ok:
+            r8.ok(key, f.loc(regs[0].stmt))
+        else:
+            r8.violation(key, f.loc(reps[0].stmt), "a parse-time diagnostic is reported while the file is not (yet) in Errors.ignored_lines: a `# type: ignore` on its line does not suppress it and is then reported as unused, --disable-error-code does not remove it, and the exit status is 1 where everything was ignored")
+    aei = ix.func("mypy.errors.Errors.add_error_info")
+    if any(isinstance(t, ast.If) and norm(t.test) == "file in self.ignored_lines" for t in ast.walk(aei.node)):
+        r8.ok("add_error_info consults ignores only for files in self.ignored_lines (why registration matters)", aei.loc())
+    else:
+        r8.info("add_error_info no longer guards the ignore logic by `file in self.ignored_lines`", aei.loc(), "registration before reporting may no longer be needed")
